@@ -81,7 +81,7 @@ class Enc:
 def eval_instances(ctx, insts):
     """insts: list of (key, inst).  Returns key -> decoded observation."""
     files, order = {}, {}
-    chunk = 120
+    chunk = 45
     for c in range(0, len(insts), chunk):
         part = insts[c:c + chunk]
         body = ["From Coq Require Import List. Import ListNotations.",
@@ -224,7 +224,7 @@ def spec_compare(src, rec):
 
 
 # ------------------------------------------------------------------------------- driver
-def run_impl(ctx, progs, jobs=12, batch=60):
+def run_impl(ctx, progs, jobs=12, batch=34):
     parts = [progs[i:i + batch] for i in range(0, len(progs), batch)]
 
     def one(part):
@@ -263,10 +263,11 @@ def run(ctx) -> int:
                    {"failed": info["failed"], "log": info["log"][-3000:]}, found_input=False)
 
     quick = ctx.quick
-    n_plain, n_const = (260, 140) if quick else (3200, 1600)
+    n_plain, n_const = (240, 130) if quick else (2600, 1400)
     progs = []
-    for f in sorted((HERE / "corpus").glob("*.py")):
-        progs.append({"id": "corpus/" + f.name, "src": f.read_text(), "group": "corpus"})
+    for cse in json.loads((HERE / "corpus" / "cases.json").read_text()):
+        progs.append({"id": "corpus/" + cse["id"], "src": cse["src"], "group": "corpus",
+                      "expect": cse["expect"], "spec": cse.get("spec", True)})
     for i, s in enumerate(gen_progs.gen_many(ctx.seed, n_plain, consts=False, nested=True)):
         progs.append({"id": f"gen/{ctx.seed}/{i}", "src": s, "group": "plain"})
     for i, s in enumerate(gen_progs.gen_many(ctx.seed + 1, n_const, consts=True, nested=True)):
@@ -289,8 +290,13 @@ def run(ctx) -> int:
             stats["instances"] += 1
             if k > 0:
                 stats["nested_instances"] += 1
+            if inst["func"] not in ("f", "g", "h"):
+                stats["library_instances"] = stats.get("library_instances", 0) + 1   # guppy std functions (Range.__next__ ...)
+                continue
             if "unmodelled" in inst or "blocks" not in inst:
                 stats["unmodelled"] += 1
+                stats.setdefault("unmodelled_reasons", {})
+                stats["unmodelled_reasons"][inst.get("unmodelled", "?")[:60]] = stats["unmodelled_reasons"].get(inst.get("unmodelled", "?")[:60], 0) + 1
                 continue
             todo.append(((r["id"], k), inst))
     obs = eval_instances(ctx, todo)
@@ -330,12 +336,25 @@ def run(ctx) -> int:
                                 "replay": replay_cmd(src)})
     stats["model_vs_impl_differences"] = n_diff
 
+    # ---- corpus: verdicts fixed by hand from the property
+    for r in recs:
+        pr = by_id[r["id"]]
+        ex = pr.get("expect")
+        if not ex:
+            continue
+        got = {"outcome": r["outcome"]}
+        if r["outcome"] == "error":
+            got.update(cls=r["error"]["cls"], var=r["error"]["var"], line=r["error"]["line"])
+        if got != ex:
+            ctx.report(f"corpus:{r['id']}", "counterexample", "corpus verdict",
+                       {"program": pr["src"], "expected": ex, "observed": got, "replay": replay_cmd(pr["src"])})
+
     # ---- independent syntactic specification vs implementation (the search)
     spec_stats = {"agree": 0, "either": 0, "DISAGREE": 0, "strict_differs": 0, "features": {}}
     n_dis = 0
     const_dev = dead_dev = None
     for r in recs:
-        if r["outcome"] not in ("ok", "error"):
+        if r["outcome"] not in ("ok", "error") or not by_id[r["id"]].get("spec", True):
             continue
         src = by_id[r["id"]]["src"]
         try:
